@@ -1,0 +1,38 @@
+//go:build verif
+
+package mcap
+
+// This file is compiled only with the "verif" build tag. It adds read-only accessors used by the
+// verification harness in /verif; it changes no behaviour.
+
+// VerifIteratorMemory reports, for an index-based message iterator, the number of chunk slots it
+// has allocated, how many of them still hold unread messages, and the total capacity of their
+// buffers. ok is false for any other iterator.
+func VerifIteratorMemory(it MessageIterator) (slots, live, bufBytes int, ok bool) {
+	imi, isIndexed := it.(*indexedMessageIterator)
+	if !isIndexed {
+		return 0, 0, 0, false
+	}
+	for i := range imi.chunkSlots {
+		slots++
+		if imi.chunkSlots[i].unreadMessages > 0 {
+			live++
+		}
+		bufBytes += cap(imi.chunkSlots[i].buf)
+	}
+	return slots, live, bufBytes, true
+}
+
+// VerifIteratorQueueLen reports the length and capacity of the pending message index queue.
+func VerifIteratorQueueLen(it MessageIterator) (length, capacity int, ok bool) {
+	imi, isIndexed := it.(*indexedMessageIterator)
+	if !isIndexed {
+		return 0, 0, false
+	}
+	return len(imi.messageIndexes) - imi.curMessageIndex, cap(imi.messageIndexes), true
+}
+
+// VerifLexerBufferCap reports the capacity of the lexer's chunk decompression buffer.
+func VerifLexerBufferCap(l *Lexer) int {
+	return cap(l.uncompressedChunk)
+}
